@@ -229,6 +229,47 @@ func init() {
 			}
 		}
 		recDot(nil)
+		// ... and a relative root that CLIMBS ("..", spellings that clean to it, and a path through the root's parent)
+		// with the process standing in root/sub: the root is still W/root
+		must(os.Chdir(filepath.Join(W, "root", "sub")))
+		upCtx := map[string]string{"none": "", "main": "../main.lisp", "subx": "x.lisp"}
+		var recUp func(comps []string)
+		visitUp := func(comps []string) {
+			loc := strings.Join(comps, "/")
+			for _, spell := range []string{"..", "../", "./..", "../../root"} {
+				for ctx, cl := range upCtx {
+					ncase++
+					lib := &lisp.RelativeFileSystemLibrary{RootDir: spell}
+					_, _, data, err := lib.LoadSource(lisp.NewSourceContext("ctx", cl), loc)
+					if err == nil {
+						out.emit(J{"dotroot": true, "cwd": "sub", "root": spell, "ctx": ctx, "comps": comps, "marker": marker(data), "via": "loadsource"})
+					}
+					if ctx == "none" && (err == nil || ncase%7 == 0) {
+						env := lisp.NewEnv(nil)
+						env.Runtime.Reader = parser.NewReader()
+						env.Runtime.Library = lib
+						if rc := lisp.InitializeUserEnv(env); rc.Type == lisp.LError {
+							must(fmt.Errorf("%v", rc))
+						}
+						if v := env.LoadFile(loc); v.Type == lisp.LSymbol {
+							out.emit(J{"dotroot": true, "cwd": "sub", "root": spell, "ctx": ctx, "comps": comps, "marker": v.Str, "via": "LoadFile"})
+						}
+					}
+				}
+			}
+		}
+		recUp = func(comps []string) {
+			if len(comps) > 0 {
+				visitUp(comps)
+			}
+			if len(comps) == in.MaxC {
+				return
+			}
+			for _, c := range in.Comps {
+				recUp(append(append([]string{}, comps...), c))
+			}
+		}
+		recUp(nil)
 		out.emit(J{"summary": true, "cases": ncase})
 	}
 }
